@@ -18,6 +18,7 @@ from . import common
 ID = "C14"
 LEVEL = "exploration"
 BATCH = 25
+PROBES_EXPECTED = ['probe:version-1', 'probe:version-2', 'probe:version-3', 'probe:restart-compared', 'probe:reply-with-error']
 TIERS = {"quick": {"runs": 6000, "wall": 50}, "thorough": {"runs": 250000, "wall": 840}}
 RULE = ("each run draws a program (plus test/kconfserver/Kconfig at low weight), protocol version 1-3, knobs (parser, policy, set-order salt), "
         "an initial sdkconfig (absent / tool-written in a reachable configuration / hand-written) and a session of 1-25 set / reset (options, "
